@@ -11,6 +11,7 @@ import unittest
 import testtools
 from testtools import PlaceHolder
 from testtools import run as tt_run
+from testtools.testsuite import FixtureSuite
 from testtools.content import text_content
 from testtools.testresult.real import (
     ExtendedToOriginalDecorator,
@@ -20,6 +21,7 @@ from testtools.testresult.real import (
     Tagger,
     TestResultDecorator,
     TextTestResult,
+    StreamToExtendedDecorator,
     ThreadsafeForwardingResult,
 )
 
@@ -53,6 +55,7 @@ class Impl:
         self.leaves = []
         self.text_stream = None
         self.sibling = None
+        self.behind = None
 
 
 def build(config):
@@ -60,7 +63,12 @@ def build(config):
     impl = Impl()
     ff_inner = ff_mode in ("inner", "inner1")
     if leaf_kind == "etsd":
-        impl.top = ExtendedToStreamDecorator(StreamResult())
+        if ff_mode == "toggle":
+            # (what the events are for: an extended result behind the stream)
+            impl.behind = rec.TT()
+            impl.top = ExtendedToStreamDecorator(StreamToExtendedDecorator(impl.behind))
+        else:
+            impl.top = ExtendedToStreamDecorator(StreamResult())
         if ff_mode not in ("off", "toggle"):
             impl.top.failfast = True
         return impl
@@ -178,7 +186,9 @@ class System:
                 out.extend((("addError",), ("addFailure",)))
         out.append(("stop",))
         if self.config[2] == "toggle":
-            out.append(("failfast_off",) if m.F else ("failfast_on",))
+            # (assigned whatever it is at the moment: a runner that always sets result.failfast)
+            out.append(("failfast_on",))
+            out.append(("failfast_off",))
         if self.config[1][-1:] == ("tfr",) and not m.in_test:
             # ConcurrentTestSuite: stop() arrives through another worker's forwarder
             out.append(("sibling_stop",))
@@ -245,6 +255,11 @@ class System:
         if not check:
             return problems
         is_etsd = self.config[0] == "etsd"
+        if impl.behind is not None and m.in_run:
+            got = (impl.behind.wasSuccessful(), impl.behind.testsRun)
+            want = (not m.bad, sum(m.counts.values()))
+            if got != want:
+                problems.append(("behind-the-stream", "the extended result behind the stream: (wasSuccessful(), testsRun) == %r, reported so far %r" % (got, want)))
         objs = [("outermost", top)] + [("underlying result %d" % i, l) for i, l in enumerate(impl.leaves)]
         for label, o in objs:
             # (ExtendedToStreamDecorator's own verdict is that of a StreamSummary, for which the pinned
@@ -383,6 +398,14 @@ def make_case(kind, n):
     return K("test_it")
 
 
+class _NullFixture:
+    def setUp(self):
+        pass
+
+    def cleanUp(self):
+        pass
+
+
 _MOD = types.ModuleType("vt_synth_c04")
 sys.modules["vt_synth_c04"] = _MOD
 
@@ -398,9 +421,12 @@ def check_suites(res, tier):
     for n in range(0, maxn + 1):
         for kinds in itertools.product(KINDS, repeat=n):
             first_bad = next((i for i, k in enumerate(kinds) if k in KIND_BAD), None)
-            for config in suite_configs:
-                impl = build(config)
+            for config in suite_configs + ([("tt", (), "inner", "fixturesuite")] if n >= 2 else []):
+                impl = build(config[:3])
                 suite = unittest.TestSuite([make_case(k, i) for i, k in enumerate(kinds)])
+                if config[3:] == ("fixturesuite",):
+                    # testtools' own suite class, nested in a plain one
+                    suite = unittest.TestSuite([FixtureSuite(_NullFixture(), list(suite))])
                 del RAN[:]
                 impl.top.startTestRun()
                 suite.run(impl.top)
